@@ -45,7 +45,15 @@ RULE = ('exhaustive: both NLSF codebooks x all 32 first-stage vectors x residual
         '(via silk_decode_parameters) and raw in-range vectors; silk_LPC_fit / silk_bwexpander_32 / inverse prediction '
         'gain on random filters; gain chains and the quantiser on log-uniform and near-level gains. A case is distinct '
         'by its (operation, outcome kind) class.')
-NOT_COVERED = ['that a non-zero silk_LPC_inverse_pred_gain implies analytic stability of the real-coefficient filter: proved is '
+NOT_COVERED = ['silk_NLSF2A on UNORDERED in-range NLSF vectors of order 16: a32_QA1[k] = -/+Qtmp - Ptmp overflows opus_int32 '
+               '(signed overflow, NLSF2A.c:125-126; theorem nlsf2a_d16_unordered_overflows). Not reachable: decoder and encoder '
+               'pass ordered vectors (nlsf_decode_ordered; interpolation of ordered vectors is ordered), so not a violation of C18 '
+               'and not patched (coordinator decision). Reproduction: feed the line `silkparams nlsf2a '
+               '32767,0,32767,0,32767,0,32767,0,32767,0,32767,0,32767,0,32767,0` to harness c18_silkparams in mode `stdin` '
+               '(UBSan: "-1593180160 - 1593180160 cannot be represented in type int"). For ordered order-16 vectors the bound '
+               '|a32_QA1| <= 2^31-1 (hypothesis hA of nlsf2a_nowrap_d16_partial) is searched (hill climbing + UBSan, worst value '
+               '1686896640 = 0.7855*2^31), not proved',
+               'that a non-zero silk_LPC_inverse_pred_gain implies analytic stability of the real-coefficient filter: proved is '
                'the bound |rc| <= 0.99975 on every reflection coefficient of the FIXED-POINT step-down recursion '
                '(inverse_pred_gain_reflection_bounded) and the 1/MAX_PREDICTION_POWER_GAIN bound; the rounding-error analysis '
                'that would transfer this to exact arithmetic is not done',
